@@ -1,6 +1,6 @@
 (* TimerRun.v — executable model of the timer machinery around the heap (src/event/event.c:766-1246,
-   src/event/event_internal.h:575, the timer branch of _dispatch_source_latch_and_call in src/source.c:505-546,
-   _dispatch_timer_config_create src/source.c:1167) as a sequential state machine. Definitions only.
+   src/event/event_internal.h:575, the timer branch of _dispatch_source_latch_and_call in src/source.c:505-546)
+   as a sequential state machine. Definitions only.
 
    Build configuration (Linux): DISPATCH_HAVE_TIMER_QOS = 0 and DISPATCH_HAVE_TIMER_COALESCING = 0, hence
    DISPATCH_TIMER_QOS_COUNT = 1, tidx = clock (0 uptime, 1 monotonic, 2 wall) and three heaps.
@@ -28,18 +28,6 @@ Definition compute_missed (target deadline interval now prev : Z) : Z * Z * Z :=
     else (UINT64_MAX, UINT64_MAX) in
   (u64 (prev + missed), tg, dl).
 Definition compute_missed_ub (interval : Z) : bool := interval =? 0.
-
-(* ---- _dispatch_timer_config_create (source.c:1167) for a start time that is not DISPATCH_TIME_NOW-relative:
-   `clock`, `value` are the results of _dispatch_time_to_clock_and_value(start) (Gen_time), forever = (start == FOREVER),
-   cur_clock the clock currently in du_timer_flags.  nano2mach is the identity here.  result (clock, target, deadline, interval) *)
-Definition config_create (forever : bool) (clock value cur_clock interval leeway : Z) : Z * Z * Z * Z :=
-  let interval := if interval =? 0 then 1 else if s64 interval <? 0 then INT64_MAX else interval in
-  let leeway := if s64 leeway <? 0 then INT64_MAX else leeway in
-  let '(clock, target) := if forever then (cur_clock, INT64_MAX) else (clock, value) in
-  let interval := if negb (clock =? 2) then (if interval <? 1 then 1 else interval) else interval in
-  let leeway := if (interval <? INT64_MAX) && (leeway >? interval / 2) then interval / 2 else leeway in
-  let deadline := if u64 (target + leeway) <? INT64_MAX then u64 (target + leeway) else INT64_MAX in
-  (clock, target, deadline, interval).
 
 (* ---- state *)
 Record timer := mkT {
@@ -147,14 +135,15 @@ Definition set_cfg (st : state) (t clock tg dl itv : Z) : state :=
 (* ---- _dispatch_timers_run (event.c:1041).  A fire event: (timer, ds_pending_data at dux_merge_evt, now).
    fuel: see TimerRun_proofs (two iterations per stored timer suffice); the boolean tells whether the loop left
    through one of its two exits (true) or ran out of fuel (false, never with the fuel used by timers_run) *)
-Definition fire := (Z * Z * Z)%type.
+(* 4th component (ghost, not compared): the target the loop condition read before firing *)
+Definition fire := (Z * Z * Z * Z)%type.
 
 Definition run_step (st : state) (tidx now : Z) (dr : Z) : state * list fire :=
   let x := tm st dr in
   if t_after x then
     let st := disarm st dr in
     let st := set_timer st dr (with_pending (tm st dr) 2) in
-    (st, [(dr, 2, now)])
+    (st, [(dr, 2, now, t_target x)])
   else match t_cfg x with
   | Some _ => (configure st dr, [])
   | None =>
@@ -162,7 +151,7 @@ Definition run_step (st : state) (tidx now : Z) (dr : Z) : state * list fire :=
       let st := disarm st dr in
       let pending := Z.lor (t_pending x) DISPATCH_TIMER_DISARMED_MARKER in
       let st := set_timer st dr (with_pending (tm st dr) pending) in
-      (st, [(dr, pending, now)])
+      (st, [(dr, pending, now, t_target x)])
     else
       let '(cnt, tg, dl) := compute_missed (t_target x) (t_deadline x) (t_interval x) now 0 in
       let pending := u64 (Z.shiftl cnt 1) in
@@ -170,12 +159,12 @@ Definition run_step (st : state) (tidx now : Z) (dr : Z) : state * list fire :=
       if needs_rearm (tm st dr) then
         let st := arm st dr tidx in
         let st := set_timer st dr (with_pending (tm st dr) pending) in
-        (st, [(dr, pending, now)])
+        (st, [(dr, pending, now, t_target x)])
       else
         let st := disarm st dr in
         let pending := Z.lor pending DISPATCH_TIMER_DISARMED_MARKER in
         let st := set_timer st dr (with_pending (tm st dr) pending) in
-        (st, [(dr, pending, now)])
+        (st, [(dr, pending, now, t_target x)])
   end.
 
 Fixpoint run_loop (fuel : nat) (st : state) (tidx now : Z) (ev : list fire) : state * list fire * bool :=
@@ -273,7 +262,7 @@ Definition tstep (n : Z) (st : state) (o : top) : state * list Z :=
   | TLatch t now => let '(st', d) := latch st t now in (st', [d])
   | TRun tidx now =>
     let '(st', ev, fin) := timers_run st tidx now in
-    (st', b2z fin :: flat_map (fun '(t, p, _) => [t; p]) ev ++ [-1] ++ obs_state st' n)
+    (st', b2z fin :: flat_map (fun '(t, p, _, _) => [t; p]) ev ++ [-1] ++ obs_state st' n)
   | TProg tidx now =>
     let '(st', calls) := program_if_needed st tidx now in
     (st', flat_map (fun '(k, i, tg, lw) => [k; i; tg; lw]) calls ++ [-1] ++ obs_state st' n)
